@@ -32,6 +32,56 @@ pub fn record_parse(opts: &Opts) -> i32 {
         }
         return 0;
     }
+    if mode == "chains" {
+        // LONG chains of one operator (and mixtures): the SHAPE of the returned tree is logged as the pre-order
+        // sequence of its node kinds (the trees are deeper than the JSON readers accept); TLC compares it with the
+        // pre-order sequence of the tree the specification gives
+        fn tags(e: &lipe_find_parser::ast::Expression, out: &mut Vec<u32>) {
+            use lipe_find_parser::ast::{Action, Expression as E, Operator, Test};
+            match e {
+                E::Operator(o) => match o.as_ref() {
+                    Operator::And(a, b) => { out.push(1); tags(a, out); tags(b, out); }
+                    Operator::Or(a, b) => { out.push(2); tags(a, out); tags(b, out); }
+                    Operator::List(a, b) => { out.push(3); tags(a, out); tags(b, out); }
+                    Operator::Not(a) => { out.push(4); tags(a, out); }
+                    Operator::Precedence(a) => { out.push(5); tags(a, out); }
+                },
+                E::Test(Test::True) => out.push(10),
+                E::Test(Test::False) => out.push(11),
+                E::Test(Test::Name(_)) => out.push(12),
+                E::Action(Action::Print) => out.push(13),
+                _ => out.push(19),
+            }
+        }
+        let mut sizes = ladder(65, opts.num("size", 5000) as usize);
+        if opts.get("few").is_some() { sizes.retain(|d| [100, 300, 511, 512, 513, 1025, 2049, 4097].contains(d) || numdict_new().contains(d)); }
+        for &n in &sizes {
+            for (k, ops) in [vec!["-o"], vec!["-a"], vec![""], vec![","], vec!["-or", "-o"], vec!["-and", "", "-a"], vec!["-o", "", ",", "-a"]].iter().enumerate() {
+                let mut words: Vec<String> = vec![];
+                let mut toks: Vec<u32> = vec![];   // the same sentence as token kinds (what the lexer of the specification would give)
+                for i in 0..n {
+                    match (i + k) % 4 {
+                        0 => { words.push("-true".to_string()); toks.push(10); }
+                        1 => { words.push(format!("-name p{}", i % 7)); toks.push(12); }
+                        2 => { words.push("-false".to_string()); toks.push(11); }
+                        _ => if i % 8 == 3 { words.push("! -true".to_string()); toks.push(4); toks.push(10); } else { words.push("-print".to_string()); toks.push(13); }
+                    }
+                    if i + 1 < n {
+                        let o = ops[(i * 7 + i / 3) % ops.len()];
+                        if !o.is_empty() { words.push(o.to_string()); toks.push(match o { "-o" | "-or" => 2, "," => 3, _ => 1 }); }
+                    }
+                }
+                let input = words.join(" ");
+                let obs = run_parse(&input);
+                match &obs {
+                    ParseOut::Ok(_, t) => { let mut pre = vec![]; tags(t, &mut pre); emit(&mut out, &json!({"i": cps(&input), "toks": toks, "st": "ok", "pre": pre, "n": n})); }
+                    ParseOut::Err(_) => emit(&mut out, &json!({"i": cps(&input), "toks": toks, "st": "err", "pre": [], "n": n})),
+                    ParseOut::Panic(_) => emit(&mut out, &json!({"i": cps(&input), "toks": toks, "st": "panic", "pre": [], "n": n})),
+                }
+            }
+        }
+        return 0;
+    }
     for k in 0..count {
         let m = if mode == "mixed" { ["grammar", "soup", "mutate", "layout", "options"][(k % 5) as usize] } else { mode.as_str() };
         let input = match m {
@@ -366,6 +416,22 @@ pub fn record_api(opts: &Opts) -> i32 {
             }
         }
     }
+    if proc_id == 0 && opts.get("paths") == Some("hostile") {
+        // one compiled expression rendered for LONG device paths with a multi-byte character at every offset around
+        // the usual block sizes (a renderer that escapes in blocks of 64 bytes cuts the character at ONE alignment)
+        let mut long_paths: Vec<String> = vec![];
+        for (ch, offs) in [('\u{e8}', (56..72).chain(120..132).collect::<Vec<usize>>()), ('\u{65e5}', (60..68).collect()), ('\u{1f600}', (60..68).collect())] {
+            for k in offs { long_paths.push(format!("/{}{}.img", "a".repeat(k.saturating_sub(1)), ch)); }
+        }
+        long_paths.push(format!("/srv/{}/mdt0", "d".repeat(300)));
+        long_paths.push(long_paths[0].clone());
+        let probe = "-name x -o -size +1k -print";
+        if let ParseOut::Ok(po, pt) = run_parse(probe) {
+            let pc = run_compile(&pt, &po, &long_paths);
+            seq += 1;
+            emit(&mut out, &json!({"ev":"compile","proc":proc_id,"seq":seq,"eid":888888,"i":cps(probe),"t":expr_to_json(&pt),"o":opts_to_json(&po),"c":pc}));
+        }
+    }
     0
 }
 
@@ -437,9 +503,35 @@ pub fn digit_run_sweep() -> Vec<String> {
 
 /// corpus for C03 / C17: valid inputs, every prefix, single-character mutations, deep nesting,
 /// long inputs, numeric boundaries
+/// LONG words of two-, three- and four-byte characters at every alignment (0..3 leading ASCII characters), where
+/// the library echoes a word back (unknown word, bad argument) or stores it (patterns, file names)
+pub fn wide_word_sweep() -> Vec<String> {
+    let mut v = vec![];
+    for ch in ['\u{e9}', '\u{65e5}', '\u{1f600}'] {
+        for pad in 0..4usize {
+            for n in [14usize, 22, 27, 33, 40, 64, 90] {
+                let w: String = "x".repeat(pad) + &ch.to_string().repeat(n);
+                for f in [format!("{}", w), format!("/{}", w), format!("-uid {}", w), format!("-name a -o -size {}", w), format!("-perm {}", w), format!("-type {}", w),
+                          format!("-printf '%{}'", w), format!("-name {} -fprint {}", w, w), format!("-threads {}", w), format!("-true {} -print", w)] { v.push(f); }
+            }
+        }
+    }
+    v
+}
+
 pub fn total_corpus(rng: &mut Rng, count: usize) -> Vec<String> {
     let mut v: Vec<String> = codepoint_sweep();
     v.extend(digit_run_sweep());
+    v.extend(wide_word_sweep());
+    // numbers taken from the clock: the current second, minute, hour and day since the epoch (and neighbours)
+    let now = std::time::SystemTime::now().duration_since(std::time::UNIX_EPOCH).map(|d| d.as_secs()).unwrap_or(0);
+    for (unit, div) in [("s", 1u64), ("m", 60), ("h", 3600), ("d", 86400), ("", 86400), ("", 60)] {
+        for d in [0i64, -1, 1] {
+            let n = (now / div) as i64 + d;
+            for kw in ["-mtime", "-atime", "-ctime", "-mmin", "-amin", "-cmin"] { for sg in ["", "+", "-"] { v.push(format!("{} {}{}{}", kw, sg, n, unit)); } }
+            v.push(format!("-uid {}", n)); v.push(format!("-size {}c", n)); v.push(format!("-links +{}", n));
+        }
+    }
     let mut k = 0usize;
     while v.len() < count {
         k += 1;
